@@ -11,6 +11,8 @@ func Scenarios(property string, thorough bool) []driver.Scenario {
 		return c26Scenarios(thorough)
 	case "C27":
 		return c27Scenarios(thorough)
+	case "C28":
+		return c28Scenarios(thorough)
 	case "C34":
 		return c34Scenarios(thorough)
 	}
